@@ -236,7 +236,11 @@ def run_batch(pid, spec, seed, scale, tag):
         if rc != 0:
             problems.append("harness %s exited %d: %s" % (b["bin"], rc, err[-400:]))
         fams = b.get("families")
-        all_cases += [(f, t, b["bin"]) for f, t in cases if fams is None or f in fams]
+        known_fams = bin_spec(spec, b["bin"])["checkers"]
+        unknown = sorted({f for f, _ in cases if f not in known_fams})
+        if unknown:
+            problems.append("harness %s printed case families without a checker: %s" % (b["bin"], unknown))
+        all_cases += [(f, t, b["bin"]) for f, t in cases if (fams is None or f in fams) and f in known_fams]
         notes += nts
     codes, errors = eval_cases(pid, spec, all_cases, tag) if all_cases else ([], [])
     problems += errors
